@@ -419,11 +419,218 @@ Definition c20_pipe_model (case : sx) : option sx :=
   | _ => None
   end.
 
+(* ============================================================================================
+   which = 4: exceptions given as concrete cfg/matchrule rule sets, events / source names as bytes.
+   The model computes the "exception i matches" bits itself from the SPECIFICATION of a rule:
+     prefix / contains / suffix of at least one value, both sides lower-cased when case_insensitive,
+     negated when invert; a rule set = all (cond and) / any (cond or) of its rules, no rule = no match.
+   (matchrule.go gets there by cutting the data to the longest value first and comparing windows; the
+   minValueSize / maxValueSize / len(cutData) < len(value) guards are an optimisation of this.)
+   Lower-casing is modelled for ASCII only: a case-insensitive rule over data or values with a byte
+   >= 0x80 is outside the model (None -> BadCase) unless the op carries its bits explicitly
+   (7th element; bytes.ToLower / strings.ToLower = Unicode case mapping is external behaviour).
+     case = (T MI U nsrc (exc ...) (op ...))
+       exc  = (check_source_name cond (rule ...))        cond 0 and | 1 or   (matchrule.CondAnd/CondOr)
+       rule = (mode ci invert (#value ...))              mode 0 prefix | 1 contains | 2 suffix
+       op   = (0) Maintenance | (1 id isNew t #name #event) | (1 id isNew t #name #event (bit ...))
+     obs and predicate as which = 1                                                            *)
+Fixpoint is_prefix (v b : bytes) : bool :=
+  match v, b with
+  | [], _ => true
+  | x :: v', y :: b' => N.eqb x y && is_prefix v' b'
+  | _ :: _, [] => false
+  end.
+Definition is_suffix (v b : bytes) : bool := is_prefix (rev_append v []) (rev_append b []).
+Fixpoint contains (v b : bytes) : bool :=
+  match b with
+  | [] => is_prefix v []
+  | _ :: r => is_prefix v b || contains v r
+  end.
+Definition lower_ascii (b : bytes) : bytes :=
+  map (fun c => if (N.leb 65 c && N.leb c 90)%bool then (c + 32)%N else c) b.
+Definition all_ascii (b : bytes) : bool := forallb (fun c => N.ltb c 128) b.
+
+Record mrule := { mr_mode : Z; mr_ci : bool; mr_inv : bool; mr_vals : list bytes }.
+Record mexc := { me_name : bool; me_or : bool; me_rules : list mrule }.
+
+Definition rule_in_model (r : mrule) (raw : bytes) : bool :=
+  negb (mr_ci r) || (all_ascii raw && forallb all_ascii (mr_vals r)).
+
+Definition rule_match (r : mrule) (raw : bytes) : bool :=
+  let raw' := if mr_ci r then lower_ascii raw else raw in
+  let hit := fun v : bytes =>
+    let v' := if mr_ci r then lower_ascii v else v in
+    if mr_mode r =? 0 then is_prefix v' raw'
+    else if mr_mode r =? 1 then contains v' raw'
+    else is_suffix v' raw' in
+  xorb (mr_inv r) (existsb hit (mr_vals r)).
+
+Definition exc_match (e : mexc) (name ev : bytes) : option bool :=
+  let data := if me_name e then name else ev in
+  if forallb (fun r => rule_in_model r data) (me_rules e) then
+    Some (match me_rules e with
+          | [] => false
+          | _ => if me_or e then existsb (fun r => rule_match r data) (me_rules e)
+                 else forallb (fun r => rule_match r data) (me_rules e)
+          end)
+  else None.
+
+Definition mrule_of_sx (s : sx) : option mrule :=
+  match s with
+  | SL [SZ mode; ci; inv; vals] =>
+      match as_bool ci, as_bool inv, as_list as_B vals with
+      | Some ci, Some inv, Some (v :: vs) =>
+          if (0 <=? mode) && (mode <=? 2) then Some {| mr_mode := mode; mr_ci := ci; mr_inv := inv; mr_vals := v :: vs |}
+          else None
+      | _, _, _ => None      (* a rule without values is never prepared: Match panics, not generated *)
+      end
+  | _ => None
+  end.
+
+Definition mexc_of_sx (s : sx) : option mexc :=
+  match s with
+  | SL [nm; cond; rules] =>
+      match as_bool nm, as_bool cond, as_list mrule_of_sx rules with
+      | Some nm, Some cond, Some rules => Some {| me_name := nm; me_or := cond; me_rules := rules |}
+      | _, _, _ => None
+      end
+  | _ => None
+  end.
+
+Definition mop4_of_sx (T : Z) (n : nat) (excs : list mexc) (s : sx) : option mop :=
+  match s with
+  | SL [SZ 0] => Some MMaint
+  | SL [SZ 1; id; isNew; SZ t; SB name; SB ev] =>
+      match as_nat id, as_bool isNew, opt_map (fun e => exc_match e name ev) excs with
+      | Some id, Some isNew, Some bits =>
+          if (id <? n)%nat then Some (MEv id (resolve T None bits) isNew t) else None
+      | _, _, _ => None
+      end
+  | SL [SZ 1; id; isNew; SZ t; SB _; SB _; bits] =>
+      match as_nat id, as_bool isNew, as_decision_bits bits with
+      | Some id, Some isNew, Some bits =>
+          if (id <? n)%nat && (length bits =? length excs)%nat
+          then Some (MEv id (resolve T None bits) isNew t) else None
+      | _, _, _ => None
+      end
+  | _ => None
+  end.
+
+Definition c20_ops_run (strong : bool) (cfg : acase) (ops : list mop) (obs : sx) : verdict :=
+  let m := SL (map sx_of_mobs (snd (mrun (c_MI cfg) (c_U cfg) (repeat None (c_n cfg)) ops))) in
+  let ok := match obs with SL os => all_sources strong cfg ops os (c_n cfg) | _ => false end in
+  if ok then (if sx_eqb m obs then Agree else Differ m) else Violates m.
+
+Definition c20_rules_run (case obs : sx) : verdict :=
+  match case with
+  | SL [SZ T; SZ MI; SZ U; n; excs; SL ops] =>
+      match as_nat n, as_list mexc_of_sx excs with
+      | Some n, Some excs =>
+          match opt_map (mop4_of_sx T n excs) ops with
+          | Some ops =>
+              c20_ops_run false {| c_T := T; c_MI := MI; c_U := U; c_mode := 0; c_rthr := []; c_n := n |} ops obs
+          | None => BadCase
+          end
+      | _, _ => BadCase
+      end
+  | _ => BadCase
+  end.
+
+(* ============================================================================================
+   which = 5: the real pipeline with the CRI decoder, rows that differ in their time and stream.
+     case = (max cutoff mark dec T U nsrc (op ...) MI)
+       op = (0) Maintenance | (1 id isNew cur (soff_stdout soff_stderr soff_noname) stream hdr bytes valid t)
+       stream 0 stdout | 1 stderr: the saved offset that counts is the one of the row's own stream
+       hdr    length of the row header "<time> <stream> <tag> "
+       t      the time IsSpam is handed for this row, in ns: the row time when it has the layout
+              2006-01-02T15:04:05.999999999Z, the zero time.Time otherwise (computed by the generator)
+     obs as which = 3.  A gap of two rows of one source is quick iff it is < MI (event times, not the clock). *)
+Inductive pop5 :=
+| P5Maint
+| P5In (id : nat) (isNew : bool) (cur : Z) (soffs : list Z) (stream hdr : nat) (b : bytes) (valid t : Z).
+
+Definition pop5_of_sx (s : sx) : option pop5 :=
+  match s with
+  | SL [SZ 0] => Some P5Maint
+  | SL [SZ 1; id; isNew; SZ cur; soffs; stream; hdr; SB b; SZ valid; SZ t] =>
+      match as_nat id, as_bool isNew, as_list as_Z soffs, as_nat stream, as_nat hdr with
+      | Some id, Some isNew, Some soffs, Some stream, Some hdr => Some (P5In id isNew cur soffs stream hdr b valid t)
+      | _, _, _, _, _ => None
+      end
+  | _ => None
+  end.
+
+Definition payload5 (dec valid : Z) (hdr : nat) (b' : bytes) : bytes :=
+  if dec =? 0 then removelast b'
+  else if dec =? 1 then strip_nl b'
+  else if valid =? 2 then removelast (skipn hdr b') else skipn hdr b'.
+
+Definition pstep5 (pc : pcase) (MI : Z) (ms : list (option src)) (o : pop5) : option (list (option src) * sx) :=
+  match o with
+  | P5Maint =>
+      let ms' := map (maint_step (p_U pc)) ms in Some (ms', SL (map (fun s => SZ (obs_counter s)) ms'))
+  | P5In id isNew cur soffs stream hdr b valid t =>
+      match nth_error soffs stream with
+      | None => None
+      | Some soff =>
+      let dok := fun b' : bytes =>
+        if p_dec pc =? 1 then (valid =? 1) && N_eqb_list (strip_nl b') (strip_nl b) else true in
+      let cri := fun _ : bytes =>
+        if p_dec pc =? 2 then (if valid =? 0 then None else Some (valid =? 2)) else Some false in
+      Some match in_stage1 (p_cfg pc) cri cur soff b with
+      | S1Refused _ => (ms, SL [SZ 0])
+      | S1Crash => (ms, SL [SZ 2])
+      | S1Go b' cut consult =>
+          let '(ms', spam) :=
+            if consult then
+              match nth_error ms id with
+              | Some s =>
+                  let '(s', v) := astep MI (p_U pc) s (Ev (resolve (p_T pc) None []) isNew t) in
+                  (set_nth id s' ms, v)
+              | None => (ms, false)
+              end
+            else (ms, false) in
+          match in_stage2 (p_cfg pc) dok b' cut consult spam with
+          | Delivered d mark => (ms', SL [SZ 1; SB (payload5 (p_dec pc) valid hdr d); of_bool mark])
+          | _ => (ms', SL [SZ 0])
+          end
+      end
+      end
+  end.
+
+Fixpoint prun5 (pc : pcase) (MI : Z) (ms : list (option src)) (ops : list pop5) : option (list sx) :=
+  match ops with
+  | [] => Some []
+  | o :: r =>
+      match pstep5 pc MI ms o with
+      | Some (ms', x) => match prun5 pc MI ms' r with Some xs => Some (x :: xs) | None => None end
+      | None => None
+      end
+  end.
+
+Definition c20_pipe5_model (case : sx) : option sx :=
+  match case with
+  | SL [SZ max; cutoff; mark; SZ dec; SZ T; SZ U; n; SL ops; SZ MI] =>
+      match as_bool cutoff, as_bool mark, as_nat n, opt_map pop5_of_sx ops with
+      | Some cutoff, Some mark, Some n, Some ops =>
+          let pc := {| p_cfg := {| max_size := max; cut_on := cutoff; mark_on := mark; as_thr := T;
+                                   is_cri := dec =? 2 |};
+                       p_dec := dec; p_T := T; p_U := U; p_n := n |} in
+          if forallb (fun o => match o with P5In id _ _ _ _ _ _ _ _ => (id <? n)%nat | P5Maint => true end) ops
+          then match prun5 pc MI (repeat None n) ops with Some xs => Some (SL xs) | None => None end
+          else None
+      | _, _, _, _ => None
+      end
+  | _ => None
+  end.
+
 (* entry point of the model runner *)
 Definition c20_entry (which : Z) (case obs : sx) : verdict :=
   match which with
   | 0 => match c20_admit_model case with Some m => exact_verdict m obs | None => BadCase end
   | 1 => c20_as_run false case obs
   | 2 => c20_as_run true case obs
+  | 4 => c20_rules_run case obs
+  | 5 => match c20_pipe5_model case with Some m => exact_verdict m obs | None => BadCase end
   | _ => match c20_pipe_model case with Some m => exact_verdict m obs | None => BadCase end
   end.
